@@ -37,6 +37,15 @@ Theorem C03_udp_reorder_refuted :
 Proof. exact udp_reorder_refuted. Qed.
 Print Assumptions C03_udp_reorder_refuted.
 
+(* (d) UDP, loss-free in-order network, the peer's application has not read yet and its receive window
+   (segmentTreeCapacity, here scaled down to 2) is exhausted: the datagram is dropped on arrival and never retransmitted *)
+Theorem C03_udp_receive_window_refuted :
+  exists sched st, run (mkCfg UDP 3 close_wait_iterations true false 16 0 2) init sched = Some st
+                   /\ clean_truncation (mkCfg UDP 3 close_wait_iterations true false 16 0 2) st /\ discarded st = false
+                   /\ gap st = true /\ read_so_far st = [0; 1].
+Proof. exact udp_receive_window_refuted. Qed.
+Print Assumptions C03_udp_receive_window_refuted.
+
 (* (b) UDP, loss-free network, send window closed for the whole bounded wait: the unsent rest of the queue is
    discarded, the close request is written directly *)
 Theorem C03_backpressure_udp_refuted :
@@ -136,3 +145,23 @@ Theorem C03_error_then_eof_refuted :
                    /\ written st = c_n (current_cfg TCP 2 0 0).
 Proof. exact input_error_can_read_as_eof. Qed.
 Print Assumptions C03_error_then_eof_refuted.
+
+(* hand-off from the underlay event loop to the session through the bounded channel recvChan (blocking send, FIFO):
+   for every capacity and every interleaving of the two loops the session handles the segments in dispatch order, so
+   the delivery-time transitions of the model (and with them the theorems above) describe the code: a close request
+   is acted upon only after everything dispatched before it *)
+Theorem C03_handoff_in_order : forall c cap evs st st',
+  hrun c cap (st, []) evs = Some (st', []) ->
+  st' = fold_left (recv_input c) (dispatched evs) st.
+Proof. exact handoff_in_order. Qed.
+Print Assumptions C03_handoff_in_order.
+
+(* ... and what goes wrong when a close request may bypass a full channel (closing the session directly from the event
+   loop): in-order, loss-free arrival, yet the close request is acted upon with a gap and the held segment is dropped *)
+Theorem C03_handoff_bypass_refuted :
+  exists evs st, hrun_bypass (current_cfg TCP 2 0 0) 1 (init, []) evs = Some (st, []) /\ dispatched evs = [Data 0; Data 1; CloseReq 2] /\
+                 rclosed st = true /\ gap st = true /\ rqueue st = [0] /\ nextRecv st = 1 /\
+                 (exists st2, hrun (current_cfg TCP 2 0 0) 1 (init, []) (evs ++ [HInput]) = None /\
+                              hrun (current_cfg TCP 2 0 0) 2 (init, []) (evs ++ [HInput; HInput]) = Some (st2, []) /\ gap st2 = false /\ rqueue st2 = [0; 1]).
+Proof. exact handoff_bypass_refuted. Qed.
+Print Assumptions C03_handoff_bypass_refuted.
